@@ -155,6 +155,32 @@ def check_case(case):
                     for typ in TYPES:
                         for ws in (range(1, 7) if typ == "LC" else (3,)):
                             calls += check_call(seq, typ, size, ua_name, ua, w, s, ws, case, out, shared)
+            if case.get("medium"):
+                # the entropy measure at EVERY window length of a medium-size word (steps 1 and 5)
+                for w in range(1, N + 1):
+                    if w not in wins:
+                        for s in (1, 5):
+                            calls += check_call(seq, "WF", size, ua_name, ua, w, s, 3, case, out, shared)
+        # the alphabet size in its other accepted spellings (string, padded string, float, numpy integer) selects the same reduction
+        for size in case["sizes"]:
+            w = min(N, 4)
+            try:
+                want = np.asarray(SP0(seq).get_linear_complexity("WF", size, blobLen=w))
+            except Exception:  # noqa
+                continue
+            for sp in (str(size), " %d " % size, float(size), np.int64(size), np.float64(size)):
+                calls += 1
+                try:
+                    got = np.asarray(SP0(seq).get_linear_complexity("WF", sp, blobLen=w))
+                    got2 = np.asarray(SP0(seq).get_linear_complexity(complexityType="LZW", alphabetSize=sp, blobLen=w))
+                    want2 = np.asarray(SP0(seq).get_linear_complexity(complexityType="LZW", alphabetSize=size, blobLen=w))
+                except Exception as e:  # noqa
+                    out.append({"key": "size-spelling-rejected", "what": "%s: alphabetSize=%r raised %r although %r is accepted"
+                                % (seq, sp, e, size), "case": dict(case, size=size, spelling=repr(sp))})
+                    continue
+                if got.shape != want.shape or not np.allclose(got, want, rtol=1e-12, atol=1e-13) or not np.allclose(got2, want2, rtol=1e-12, atol=1e-13):
+                    out.append({"key": "size-spelling-changes-result", "what": "%s: alphabetSize=%r gives %r but %r gives %r"
+                                % (seq, sp, got[1].tolist()[:4], size, want[1].tolist()[:4]), "case": dict(case, size=size, spelling=repr(sp))})
         # unknown complexity types are rejected
         from localcider.sequenceParameters import SequenceParameters as SP
         for bad in ("XX", "RHP", "", "W F", None, 5):
@@ -279,8 +305,11 @@ def run(tier, seed, t0):
     for N in range(1, NL + 1):
         cases.append({"kind": "lattice", "N": N})
     # medium-size irregular words: chunks of a de Bruijn sequence (every 5-residue window over three letters occurs)
-    for w in spaces.window_complete_chunks("LKF", 5, (31,) if tier == "quick" else (19, 31, 53)):
+    for w in spaces.window_complete_chunks("LKF", 5, (31, 53) if tier == "quick" else (19, 31, 53, 64)):
         cases.append({"kind": "word", "seq": w, "sizes": [2, 3, 20] if tier == "quick" else sizes, "uas": uas[:1], "medium": True})
+    # ... and over all 20 residues (every ordered pair of residues adjacent somewhere)
+    for w in spaces.window_complete_chunks(T.AA, 2, (57,) if tier == "quick" else (29, 57, 81)):
+        cases.append({"kind": "word", "seq": w, "sizes": [2, 4, 20] if tier == "quick" else sizes, "uas": uas[:1], "medium": True})
     cases.append({"kind": "long-then-short", "L": 130, "sizes": [2, 3, 4, 6] if tier == "quick" else list(T.SIZES),
                   "words": ["LKF", "LKFF", "KFLKF", "ASTDE", "FFKL"]})
     cases.sort(key=lambda c: -(len(c["seq"]) ** 3 if "seq" in c else (c["N"] ** 2 / 8 if "N" in c else 10 ** 6)))
@@ -292,7 +321,7 @@ def run(tier, seed, t0):
              "x user alphabets %s x every window 1..N+1 x every step 1..N x word sizes 1..6 (LC): shape (2,floor((N-w)/s)+1), "
              "integral strictly increasing positions within 1..N, values in [0,1]; all configurations of a word are asked of ONE live object; locality (each value == the one-window profile "
              "of a fresh object built from that window), WF == Shannon entropy to base alphabet-size of the independently reduced "
-             "window, windows with equal reduced strings give equal values (all three types), w>N and 6 unknown types rejected; an array returned earlier must not be modified by a later call; in a freshly imported "
+             "window (medium words: WF at every window length), the alphabet size given as string / padded string / float / numpy number selects the same reduction, windows with equal reduced strings give equal values (all three types), w>N and 6 unknown types rejected; an array returned earlier must not be modified by a later call; in a freshly imported "
              "package four 130-residue sequences lacking whole reduced classes are profiled first and a battery of short words afterwards; plus every (N,w,s) with N<=%d on a periodic 20-letter sequence for shape "
              "and position row; non-trivial = words with >=2 distinct letters" % (N1, N2, sizes, uas, NL),
         bounds={"N_LKF": N1, "N_ASTDE": N2, "sizes": sizes, "user_alphabets": uas, "lattice_N": NL},
